@@ -461,11 +461,13 @@ class Deps:
     def closure(self, t):
         an = self.an
         seen = set()
+        self.visited = seen
         leaves = set()
         stack = [t]
         seen_defs = set()
         seen_defs_proj = set()
         seen_paths = set()
+        self._seen_paths = seen_paths
         seen_ctrl = set()
         while stack:
             x = stack.pop()
@@ -542,15 +544,21 @@ class Deps:
         while r[0] in ('field', 'deref', 'cidx', 'index'):
             chain.append(r)
             r = r[1]
-        if r[0] not in ('phi', 'rec'):
+        if r[0] not in ('phi', 'rec', 'mem'):
             return None
         key = (r, tuple((c[0], c[2] if c[0] == 'field' else None) for c in chain))
         if key in seen:
             return []
         seen.add(key)
         an = self.an
-        ids = r[2] if r[0] == 'phi' else (r[1],)
         out = []
+        if r[0] == 'mem':
+            ids = tuple(d.id for d in an.defs_of.get(r[1], []))
+            mp = mem_path(x)
+            if mp is not None:
+                self._push_stores(mp, out, self._seen_paths)
+        else:
+            ids = r[2] if r[0] == 'phi' else (r[1],)
         chain = chain[::-1]   # outermost-first from the root
         for i in ids:
             d = an.defs[i]
